@@ -335,6 +335,50 @@ func c18Run(c *Ctx) {
 		c.Violate("unsorted", "completion list is not sorted: %q", gi)
 		return
 	}
+	// a group registered after the parser has already served a completion is offered in the same context
+	lateStage := ""
+	if c.K%4 == 2 && specified && (class == "long-partial" || class == "bare-dashes" || class == "command-partial" || class == "after-plain-arg") {
+		late := &struct {
+			Late  string `long:"zz-late"`
+			Flag  bool   `long:"zz-late-flag"`
+			Color Vocab  `long:"zz-late-color"`
+		}{}
+		chain := cur.Chain()
+		host := chain[r.Intn(len(chain))]
+		var aerr error
+		if host.Parent == nil {
+			_, aerr = b.P.AddGroup("Late Options", "", late)
+			lateStage = "parser"
+		} else if host.FC != nil {
+			_, aerr = host.FC.AddGroup("Late Options", "", late)
+			lateStage = "command"
+		}
+		if aerr != nil {
+			c.Violate("late-group:rejected", "AddGroup after the first completion failed: %v", aerr)
+			return
+		}
+		if lateStage != "" {
+			for _, q := range []struct {
+				last string
+				want []string
+			}{
+				{"--zz-la", []string{"--zz-late", "--zz-late-color", "--zz-late-flag"}},
+				{"--zz-late-color=al", []string{"--zz-late-color=al pha", "--zz-late-color=alpha", "--zz-late-color=alps"}},
+			} {
+				args2 := append(append([]string{}, prefix...), q.last)
+				got2, _, pi2 := c18Complete(b, args2)
+				c.Count("completions", 1)
+				if pi2 != nil {
+					c.Violate("late-group:panic", "completion after AddGroup panicked: %s", pi2.Value)
+					return
+				}
+				if g2 := itemsOf(got2); !eqStrs(g2, q.want) {
+					c.Violate("late-group:wrong-list", "a group added to the %s after the first completion: words %q offered %q, expected %q", lateStage, args2, g2, q.want)
+					return
+				}
+			}
+		}
+	}
 	// the parser's own parse of the same prefix reaches the same command context
 	b2 := d.Build()
 	var active []string
@@ -404,6 +448,9 @@ func c18Run(c *Ctx) {
 			}
 			c.Count("acceptance_parses", 1)
 		}
+	}
+	if lateStage != "" {
+		class += "+late-group-on-" + lateStage
 	}
 	c.Held(class, fmt.Sprintf("n=%d depth=%d prefix=%d help=%v", minInt(len(gi), 12), cur.Depth, minInt(len(prefix), 8), help))
 }
